@@ -69,6 +69,8 @@ def gen_worker(qual):
                 d['smt2'] = backend.to_smt2(ob.formula())
                 if ob.has_quantified_assumptions():
                     d['smt2_light'] = backend.to_smt2(ob.formula(light=True))
+                    if ob.has_quantified_facts():
+                        d['smt2_qf'] = backend.to_smt2(ob.formula(light='qf'))
                 if len(ob.pc) > 12:
                     d['smt2_coi'] = backend.to_smt2(ob.formula_coi())
             out['obligations'].append(d)
@@ -151,7 +153,7 @@ def main(argv=None):
     # budgets sized so that a verdict does not flip when all cores are busy (almost every query
     # answers in well under a second; the slowest discharged one takes ~12 s on an idle machine)
     timeout_ms = 30000 if tier == 'quick' else 120000
-    str_timeout_ms = 60000 if tier == 'quick' else 180000
+    str_timeout_ms = 120000 if tier == 'quick' else 240000     # (the slowest discharged string obligation on the pinned tree needs ~80 s of cvc5: addValue, wildcard multikey)
     os.makedirs(os.path.join(HERE, 'evidence'), exist_ok=True)
     os.makedirs(os.path.join(HERE, 'replays'), exist_ok=True)
 
@@ -187,9 +189,9 @@ def main(argv=None):
         for ob in g['obligations']:
             if 'smt2' in ob:
                 to = str_timeout_ms if backend.uses_strings(ob['smt2']) else timeout_ms
-                payload = (ob['smt2_light'], ob['smt2']) if 'smt2_light' in ob else ob['smt2']
+                payload = (ob['smt2_light'], ob['smt2'], ob.get('smt2_qf')) if 'smt2_light' in ob else ob['smt2']
                 if 'smt2_coi' in ob:
-                    payload = (ob['smt2_coi'], ob.get('smt2_light'), ob['smt2'])
+                    payload = (ob['smt2_coi'], ob.get('smt2_light'), ob['smt2'], ob.get('smt2_qf'))
                 jobs.append((ob['id'] + '#' + str(len(jobs)), payload, to, None))
                 ob['_job'] = jobs[-1][0]
     canary_jobs = []
@@ -459,6 +461,9 @@ def main(argv=None):
         'backends': backends, 'solver_time_s': round(solver_time, 2),
         'undecided': undecided, 'bounded': standin_ev,
         'assumed_contracts': assumed,
+        'assumed_requires': sorted('%s: %s' % (q, cl.label) for q, c in api.REGISTRY.items()
+                                   if any(q in (g.get('used_contracts') or []) or q == g.get('function') for g in gens)
+                                   for cl in c.requires if getattr(cl, 'assumed', False)),
         'inlined_helpers': sorted(set(sum([g.get('inlined') or [] for g in gens], []))),
         'python_semantics_assumed': [
             'int is mathematical; str is a sequence of code points; slicing clamps; find returns -1',
@@ -479,7 +484,7 @@ def main(argv=None):
         'distinct_nontrivial': max(2, n_dis),
     }
     ev = {'property_id': prop, 'tier': tier, 'seed': a.seed, 'level': level, 'coverage': coverage,
-          'assumptions': assumed + coverage['python_semantics_assumed'], 'wall_s': wall,
+          'assumptions': assumed + ['assumed precondition ' + x for x in coverage['assumed_requires']] + coverage['python_semantics_assumed'], 'wall_s': wall,
           'violations': len(violations)}
     # a run against a scratch tree (seeded-change / harmless-edit self-tests) must not overwrite the
     # evidence of /repo itself, nor the lock
